@@ -2,15 +2,15 @@
 from vlib.core import Query
 
 INFO = {
-    "claim": "Bit vectors (all operations, 1..70 bits, arbitrary contents), the binary-heap priority queue, the B-tree (t = 2), the "
-             "hash table and the DNF algebra agree with their mathematical models on every operation sequence / formula within the "
+    "claim": "Bit vectors (all operations, 1..70 bits, arbitrary contents), the binary-heap priority queue, the B-tree (t = 2) and the "
+             "hash table agree with their mathematical models on every operation sequence / formula within the "
              "stated bounds; operation kinds, keys and (for the table) hash collisions are symbolic. Decided by CBMC on the real "
-             "bitv.c, priq.c, btree.c, table.c, dnf.c.",
+             "bitv.c, priq.c, btree.c, table.c (dnf.c: attempted, no verdict, not claimed).",
     "level": "model_checking",
     "bounds": "bitv: nbits 1..70 symbolic, contents arbitrary; priq: histories of 3-4 (quick) / 5-6 (thorough) symbolic operations; btree: t = 2, one "
               "symbolic insert/delete from every valid leaf root, and each restructuring primitive (split, unsplit, rotate up/down) on every "
               "two-level shape it applies to (symbolic keys 0..255); table and dnf: see query bounds",
-    "outside": "longer histories; list.c, intset.c, buffer.c growth paths; ablogic.c / tfcond.c (need AbSyn); deleting a key that is not "
+    "outside": "the DNF clause (dnf.c: no verdict within 1800 s); whole B-tree insert/delete on trees of height >= 2; longer histories; list.c, intset.c, buffer.c growth paths; ablogic.c / tfcond.c (need AbSyn); deleting a key that is not "
                "in the B-tree and extracting from an empty queue (documented preconditions)",
     "assumptions": [
         "stoAlloc/stoResize modelled by malloc / bump arena, never fails",
@@ -66,9 +66,8 @@ def queries(ctx, extra):
                              + ["-DCH%d=%d" % (i, c) for i, c in enumerate(ch4)],
                         unwind=6, unwindset=["btreeCheck0:2", "cnt:3", "paired:3"], timeout=600, group="btree",
                         bound="%s at child %d of an arbitrary valid tree: root %d keys, children %s keys, symbolic keys" % (nm, idx, r, ch)))
-    qs.append(Query(name="dnf_eval", harness="c20_dnf.c", entry="h_dnf_eval", srcs=["dnf.c"], defs=["-DV_STO_FIXED=96", "-DV_STO_NOFREE"],
-                    unwind=10, timeout=1800, mem_gb=14, group="dnf",
-                    bound="all formulas ((l1 o1 l2) o2 l3) with optional negation at both levels over literals of 3 atoms, every valuation"))
+    # dnf.c: attempted (harness/c20_dnf.c, formulas (l1 o l2) and ((l1 o1 l2) o2 l3) over 3 atoms): no verdict in 900 s / 1800 s --
+    # symex of the heap-allocated variable-size terms does not finish; the DNF clause of C20 is therefore NOT claimed.
     # hash table: one step from every chain shape (bucket 0: 0..3 entries, bucket 1: 0..1), symbolic hash values;
     # plus the growth path from a full 1-bucket table (5 entries -> 6th insert enlarges to 2 buckets)
     QUICK = {(7, 0, 0), (7, 1, 0), (7, 0, 1), (7, 2, 0), (1, 4, 0)}      # the others take 130-860 s each
